@@ -36,6 +36,7 @@ theorem dirty_mono {s s' : St} {a : Act} (h : step s a = some s') (hd : s'.dirty
   case monExit => split at h <;> simp at h; subst h; exact hd
   case wRead => simp at h; subst h; exact hd
   case wStore k => split at h <;> simp at h; subst h; exact hd
+  case wStoreB k => split at h <;> simp at h; subst h; exact hd
   case otherBcast => simp at h; subst h; exact hd
   case cancel => simp at h; subst h; exact hd
 
@@ -284,6 +285,23 @@ theorem inv_step {s s' : St} {a : Act} (hi : Inv s) (h : step s a = some s') (hd
         | some c =>
           have := hi.loopConst l hm c hcache hconst
           simp [hs, hcache, this]
+    · simp at h
+  case wStoreB k =>
+    split at h
+    · rename_i v hk
+      simp only [Option.some.injEq] at h
+      subst h
+      have hv : v = s.tru := hi.pendTru v (List.mem_of_getElem? hk)
+      subst hv
+      refine ⟨?_, hi.await, hi.loopEnd, ?_, hi.bc0, by simp, ?_⟩
+      · intro w hw; exact hi.pendTru w (List.mem_of_mem_eraseIdx hw)
+      · intro l _ c hc _; simpa using hc.symm
+      · intro l hm hconst hb
+        dsimp only
+        by_cases hsame : s.cache = some s.tru
+        · simp only [hsame, if_true]
+          rw [hi.snapOk l hm hconst hb, hsame]
+        · simp [hsame]
     · simp at h
   case otherBcast =>
     simp only [Option.some.injEq] at h
